@@ -46,6 +46,27 @@ def build(o):
     raise ValueError(k)
 
 
+def prime(x):
+    """queries that make the library compute (and possibly cache) derived state of x: hash, ==, edges, measures"""
+    for f in (lambda: hash(x), lambda: x == x, lambda: x.segments(), lambda: x.length(), lambda: x.area(), lambda: x.volume(),
+              lambda: x.points[0] in x, lambda: repr(x)):
+        try:
+            f()
+        except Exception:
+            pass
+
+
+def build_via_move(o, t, primed=True):
+    """the same object, arrived at by an in-place move: built at o - t, queried once (so that any derived state is
+    populated), then moved by t in place; the RECEIVER is returned.  Lattice t: the translated coordinates are exact floats."""
+    from . import gen
+    x = build(gen.translate_obj(o, tuple(-c for c in t)))
+    if primed:
+        prime(x)
+    x.move(Vc(t))
+    return x
+
+
 def ex(x):
     """exact value of a float / int / Fraction"""
     if isinstance(x, F):
